@@ -7,6 +7,7 @@ CONSTANTS
   FlankIds = {4}
   FlankPairs = "diag"
   MMBases = {"A"}
+  BoundaryPs = {}
   XBases = {"A"}
   Protos = {"nla"}
   Variant = "impl_revmotif"
